@@ -218,6 +218,12 @@ def HPQ.pop (q : HPQ) : Option (Item × HPQ) :=
   | none => none
   | some (x, h) => some (x, { q with heap := h })
 
+/-- `PriorityQueue.Peek` (default `MinPriority`): the root of the heap -/
+def HPQ.peek (q : HPQ) : Option Item := q.heap.head?
+
+/-- `PriorityQueue.Clear`: fresh slice, `orderCounter = 0` -/
+def HPQ.clear (_ : HPQ) : HPQ := {}
+
 /-- `TaskQueue.queues`: root monitor id ↦ queue -/
 abbrev TQ := List (Nat × PQ)
 
@@ -253,6 +259,19 @@ def checkTrace : TQ → Nat → List QEv → Option Nat
   | t, k, .pop root mon :: rest =>
     match t.pop root with
     | some (m, t') => if m.val == mon then checkTrace t' (k + 1) rest else some k
+    | none => some k
+
+/-- the same replay on the real representation (`HPQ`: container/heap on the slice) -/
+def checkTraceH : List (Nat × HPQ) → Nat → List QEv → Option Nat
+  | _, _, [] => none
+  | t, k, .push root prio mon :: rest =>
+    let q := ((t.find? (·.1 == root)).map (·.2)).getD {}
+    checkTraceH ((root, q.push mon prio) :: t.filter (·.1 != root)) (k + 1) rest
+  | t, k, .pop root mon :: rest =>
+    let q := ((t.find? (·.1 == root)).map (·.2)).getD {}
+    match q.pop with
+    | some (m, q') =>
+      if m.val == mon then checkTraceH ((root, q') :: t.filter (·.1 != root)) (k + 1) rest else some k
     | none => some k
 
 /-! ## (c) root-monitor bookkeeping — engine/monitor.go -/
